@@ -6,6 +6,7 @@ package props
 // per acquisition and never touched after it has been recycled.
 
 import (
+	"bytes"
 	"fmt"
 	"net"
 	"strings"
@@ -222,6 +223,12 @@ func TestC15Pool(t *testing.T) {
 		fs := sim.DrawFateScript(rt, c01FateOpts)
 		app := drawSessApps(rt, pairMSS(cfg), 25, 100_000)
 		mode := rapid.SampledFrom([]int{kcp.VerifPoolQuarantine, kcp.VerifPoolLIFO}).Draw(rt, "poolMode")
+		// SetDUP (a switch kept for testing): every packet goes out dup+1 times, and
+		// every copy's buffer has one owner like any other
+		dup, dupCopies := 0, 0
+		if !cfg.Listener && rapid.IntRange(0, 3).Draw(rt, "setdup") == 0 {
+			dup = rapid.IntRange(1, 3).Draw(rt, "dup")
+		}
 		var pool kcp.VerifPoolStats
 		var d snmpDelta
 		rapid.SyncTest(rt, func(rt *rapid.T) {
@@ -238,11 +245,26 @@ func TestC15Pool(t *testing.T) {
 			for e := 0; e < 2; e++ {
 				obs[e] = newWireObserver(p.Crypto, cfg.FEC[e], cfg.Conv, cfg.StreamID[e], cfg.Opts[e].Stream)
 			}
+			var lastDg [2][]byte
+			var copies [2]int
+			if dup > 0 {
+				for e := 0; e < 2; e++ {
+					if p.Sess[e] != nil {
+						p.Sess[e].SetDUP(dup)
+					}
+				}
+			}
 			s.OnSent = func(dg *sim.Sent, from, to string, f *sim.Fate) error {
 				e := 0
 				if from == p.Addr[1].String() {
 					e = 1
 				}
+				if dup > 0 && copies[e] < dup && bytes.Equal(dg.Data, lastDg[e]) {
+					copies[e]++
+					dupCopies++
+					return nil
+				}
+				lastDg[e], copies[e] = append(lastDg[e][:0], dg.Data...), 0
 				return obs[e].Observe(dg.Data)
 			}
 			err = p.Run(fs.EndTime()+600_000, false)
@@ -265,9 +287,12 @@ func TestC15Pool(t *testing.T) {
 		if d.Retrans > 0 {
 			cl = append(cl, "retransmission")
 		}
+		if dupCopies > 0 {
+			cl = append(cl, fmt.Sprintf("setdup_%d_copies_on_the_wire", dup))
+		}
 		rec.Add("n_pool_gets", int64(pool.Gets))
 		rec.Add("n_pool_puts", int64(pool.Puts))
-		rec.Case(hx.Hash64(describePair(cfg, fs, app), mode), pool.Gets >= 1000 && d.Retrans > 0, cl...)
+		rec.Case(hx.Hash64(describePair(cfg, fs, app), mode, dup), pool.Gets >= 1000 && d.Retrans > 0, cl...)
 		if rec.WantSample() {
 			dd := describePair(cfg, fs, app)
 			dd["pool"] = map[string]any{"mode": mode, "gets": pool.Gets, "puts": pool.Puts, "max_owned": pool.MaxOwned}
